@@ -36,6 +36,13 @@ def run(prog, rep):
     rep.part(rng, prog, rep)
     rep.part(montecarlo, prog, rep)
     rep.part(rejection, prog, rep)
+    rep.part(window, prog, rep)
+    rep.part(cache, prog, rep)
+    rep.expect_min("C16.window", 1)
+    rep.expect_min("C16.cache", 1)
+    rep.explanation += (" C16.window: the upper end of the rejection sampler's abscissa window lies where the density is negligible - a search that shrinks the "
+                        "bound until the density at the bound EXCEEDS a threshold ends inside the body of the density and cuts the upper tail. "
+                        "C16.cache: every method that changes the model drops the remembered Monte-Carlo sample.")
     rep.expect_min("C16.reject", 4)
     rep.expect_min("C16.mc", 6)
     rep.expect_min("C16.closed", 8)
@@ -379,6 +386,60 @@ def rng(prog, rep):
                 okg = True
     rep.check(okg, "C16.rng", f"{MM}.conditional_sample:generator", cs.where(), "rng = np.random.default_rng(random_state)",
               "the rejection sampler must draw from np.random.default_rng(random_state) only")
+
+
+def window(prog, rep):
+    q = f"{JM}.MultivariateModel.conditional_sample"
+    fn = prog.func(q)
+    b = builder(prog, fn, inline=False)
+    cfg = cfg_of(fn)
+    bad = []
+    n = 0
+    for st in cfg.all_stmts():
+        if not isinstance(st, ast.While):
+            continue
+        t = b.term(st.test, st)
+        from vstat.terms import ordered
+        o = ordered(t) if t[0] == "cmp" else None
+        # while density(X) < threshold: X = c * X      (threshold a constant, c < 1)
+        if o is None or o[1][0] != "const" or not (o[0][0] == "call"):
+            continue
+        shr = [s for s in ast.walk(st) if isinstance(s, ast.Assign) and isinstance(s.targets[0], ast.Name) and isinstance(s.value, ast.BinOp) and isinstance(s.value.op, ast.Mult)
+               and any(isinstance(x, ast.Name) and x.id == s.targets[0].id for x in ast.walk(s.value))]
+        if not shr:
+            continue
+        n += 1
+        name = shr[0].targets[0].id
+        # after the loop the name is used as the upper bound without stepping back over the last shrink
+        stepped_back = any(isinstance(s, ast.Assign) and isinstance(s.targets[0], ast.Name) and s.targets[0].id == name and isinstance(s.value, ast.BinOp)
+                           and isinstance(s.value.op, ast.Div) and cfg.reachable(cfg.node(st), cfg.node(s)) and not any(p_ is st for p_, _w in cfg.enclosing(s))
+                           for s in cfg.all_stmts())
+        if not stepped_back:
+            bad.append((st, name, show(o[1])))
+    if n == 0:
+        rep.ok("C16.window", f"{q}:upper-bound", fn.where(), "no shrink-until-dense search of the abscissa bound found", nontrivial=False)
+        return
+    rep.check(not bad, "C16.window", f"{q}:upper-bound", fn.where(bad[0][0]) if bad else fn.where(),
+              "the search ends at a bound where the density is still negligible",
+              f"'{bad[0][1] if bad else ''}' is multiplied down until the density AT it is no longer below the absolute threshold {bad[0][2] if bad else ''} and is then used as the "
+              "upper end of the sampling window: the window ends inside the body of the conditional density (the values between the bound and the previous, "
+              "larger one are cut off), and for a conditioning value in the tail no grid value passes the absolute threshold at all")
+
+
+def cache(prog, rep):
+    """TransformedModel keeps a Monte-Carlo sample for empirical_cdf (a deliberate memo, see C19): it describes the model only until the model changes."""
+    ci = prog.cls(TM)
+    memo = "_sample"
+    changers = [m for name, m in ci.methods.items() if name == "fit" or name.startswith("_fit")]
+    if not changers:
+        raise AnalysisError(f"{TM}: no fit method found")
+    for m in changers:
+        rep.analysed(m)
+        resets = [n for n in ast.walk(m.node) if isinstance(n, ast.Assign) and any(isinstance(t, ast.Attribute) and isinstance(t.value, ast.Name) and t.value.id == "self" and t.attr == memo for t in n.targets)
+                  and isinstance(n.value, ast.Constant) and n.value.value is None]
+        rep.check(bool(resets), "C16.cache", f"{m.qualname}:drops-{memo}", m.where(), f"self.{memo} = None when the model is re-fitted",
+                  f"{m.name} changes the model but keeps self.{memo}: empirical_cdf after a re-fit still answers for the model as it was before "
+                  "(fit(A), empirical_cdf, fit(C), empirical_cdf returns the same numbers)")
 
 
 def rejection(prog, rep):
